@@ -48,3 +48,20 @@ _stub("C16", "Decides structural clauses of C16: in paint.transformed every spec
              "predicates equal the OpenType ranges. Does NOT decide numeric equality of the emitted composition with the affine, "
              "nor behaviour at almost_equal boundaries.",
       "numeric equality of encodings; almost_equal boundary behaviour; _decompose_uniform_transform arithmetic")
+
+_stub("C09", "Decides structural clauses of C09 on a static model of the ninja graph the driver writes (rules, edge sites, variables, "
+             "inputs): every $variable a rule expands is bound by every edge using it and no bound variable is unused; every "
+             "path-valued variable is a declared input; no rule sets restat/generator; the glyphmap edge lists the per-source "
+             "intermediates of each format family; resolved configs and build.ninja are rewritten unconditionally before ninja runs; "
+             "ninja runs with check=True, pngquant returns its child's status, no except handler swallows an error outside a reviewed "
+             "table, no step exits 0 explicitly; every font-writing main writes the font as its last action. Does NOT decide "
+             "convergence over histories, ninja's own dirtiness logic, or behaviour at kill points.",
+      "convergence over edit/crash histories; ninja log/mtime semantics; partial files left by killed steps")
+
+_stub("C17", "Decides structural clauses of C17: a uniqueness check keyed on the glyph name and one keyed on the codepoint sequence "
+             "(seen-set / len(set) / Counter idioms) raises on the path write_font.main -> ColorGlyph.create; each raise site the "
+             "property relies on (bad colour, unknown spreadMethod, palette conflict, parse failure, missing file, oversize bitmap, "
+             "master mismatch, missing viewBox) exists, is reachable, is not guarded by a constant and is not caught without re-raise "
+             "on any resolved call path; failures propagate to the exit status (R09d) and font files are written last (R09e). Does "
+             "NOT decide that picosvg rejects every unsupported construct, nor what ninja does with the exit status.",
+      "picosvg's own input validation; exit-status handling inside ninja")
